@@ -38,6 +38,11 @@ func runReflPair(c *CaseDesc, rng *rand.Rand) []string {
 		if d == "" {
 			d = shapeDiff(base, v)
 		}
+		if d == "" {
+			if a, b := flowSig(c0), flowSig(c1); a != b {
+				d = "flows-api: " + a + " vs " + b
+			}
+		}
 		return withPair(base, kind, v, d)
 	}
 	out := variant("refl-all", func() bool { return true })
@@ -53,6 +58,27 @@ func runReflPair(c *CaseDesc, rng *rand.Rand) []string {
 		}
 	}
 	return out
+}
+
+// flowSig: what the flows API reports for each provider on its own and for the whole collection
+func flowSig(c *CaseDesc) string {
+	r := &caseRun{c: c.clone(), quiet: true}
+	var b strings.Builder
+	f := func(x interface {
+		DownFlows() ([]reflect.Type, []reflect.Type)
+		UpFlows() ([]reflect.Type, []reflect.Type)
+	}) {
+		di, do := x.DownFlows()
+		ui, uo := x.UpFlows()
+		fmt.Fprintf(&b, "%s>%s^%s>%s;", fmtCodes(codesOf(di)), fmtCodes(codesOf(do)), fmtCodes(codesOf(ui)), fmtCodes(codesOf(uo)))
+	}
+	s := guarded(5*time.Second, func() {
+		for _, p := range r.c.Provs {
+			f(nject.Sequence("one", annotate(p, r.rawProvider(p))))
+		}
+		f(r.buildCollection("c"))
+	})
+	return strings.ReplaceAll(b.String()+s, " ", "_")
 }
 
 // shapeDiff compares what the stages computed (class, group, inclusion, flows, parameter maps, slots)
@@ -340,10 +366,13 @@ func genTags(rng *rand.Rand, isStruct bool) []string {
 func genStruct(rng *rand.Rand, depth int) *fdesc {
 	d := &fdesc{leaf: -1, exported: true}
 	nf := 1 + rng.Intn(4)
+	if depth >= 2 {
+		nf = 2 + rng.Intn(2) // siblings deep down: field paths there share a prefix of some length
+	}
 	for i := 0; i < nf; i++ {
 		f := &fdesc{exported: rng.Intn(8) != 0}
 		switch {
-		case depth < 2 && rng.Intn(4) == 0:
+		case depth < 6 && rng.Intn(4-minInt(depth, 2)) == 0:
 			sub := genStruct(rng, depth+1)
 			f.leaf, f.fields = -1, sub.fields
 			f.tags = genTags(rng, true)
@@ -546,4 +575,11 @@ func runFiller(rng *rand.Rand, n int) []string {
 		out = append(out, fmt.Sprintf("%s result=ok inputs=%s fields=%s", line, fmtCodes(ic), orDash(strings.Join(fields, ","))))
 	}
 	return out
+}
+
+func minInt(a, b int) int {
+	if a < b {
+		return a
+	}
+	return b
 }
